@@ -321,6 +321,49 @@ def work_zoo_T(chunk, st):
     st.sample({'zoo_T': list(chunk[:2])}, cap=2)
 
 
+def probe_fault_tasks():
+    out = []
+    for conn in (1, 2, 3, 4):
+        for fault in ((-1, ('refuse',)), (-1, ('timeout',)), (0, ('trunc_stall', 3)), (0, ('reset',)), (0, ('garbage', 40, 7)), (1, ('reset',)), (1, ('trunc_close', 9))):
+            for opts in (['-j'], ['-j', '-v'], ['-jj', '-l', 'warn'], ['-j', '-v', '-b'], ['-v'], []):      # (-d is documented to add text to JSON output)
+                for via_T in (False, True):
+                    out.append((conn, fault, tuple(opts), via_T))
+    return out
+
+
+def work_probe_faults(chunk, st):
+    """connection-level trouble on a LATER connection of the same audit (a host-key or group-exchange probe refused, timing out, reset,
+    answering rubbish) under every rendering: the lists parsed from the first connection are still what the report shows"""
+    lists = dict(kex=['curve25519-sha256', 'diffie-hellman-group-exchange-sha256', 'frob-kex@example.org'], key=['ssh-ed25519', 'rsa-sha2-512', 'frob-key@example.org'],
+                 enc=['aes256-ctr', 'frob-enc@example.org'], mac=['hmac-sha2-256', 'frob-mac@example.org'])
+    for conn, (msg, fault), opts, via_T in chunk:
+        srv = peer.Server(host_keys=peer.standard_host_keys(['ssh-ed25519', 'rsa-sha2-512']), gex=peer.GexPolicy([2048, 4096], peer.STRICT), **lists)
+        res = H.audit(srv, opts=['-n', '--skip-rate-test'] + list(opts), faults={(srv.label, conn, msg): fault}, via_targets_file=via_T)
+        root = ('probe-fault', conn, msg, fault, opts, via_T)
+        st.execution(res.world, outcome=('probe-fault', res.status, opts, via_T), root=root, nontrivial=root)
+        d = {'conn': conn, 'msg': msg, 'fault': list(fault), 'opts': list(opts), 'T': via_T, 'status': res.status}
+        tag = '%s%s' % (' '.join(opts) or 'plain', ':T' if via_T else '')
+        if res.hang or res.exc or res.status not in (0, 2, 3):
+            st.violation('probe-fault:no-report:%s' % tag, dict(d, tail=(res.stdout + res.stderr)[-300:]))
+            continue
+        if any(o in ('-j', '-jj') for o in opts):
+            try:
+                doc = json.loads(res.stdout)
+                doc = doc[0] if isinstance(doc, list) and len(doc) == 1 else doc
+                got = {c: report.json_names(doc, c) for c in lists}
+            except (ValueError, TypeError, KeyError, AttributeError):
+                st.violation('probe-fault:json-unparseable:%s' % tag, dict(d, stdout=res.stdout[:200]))
+                continue
+        else:
+            rep = report.TextReport(res.stdout)
+            got = {c: (collapse(rep.names(c)) if '-v' in opts else rep.names(c)) for c in lists}
+        for c in lists:
+            if got[c] != lists[c]:
+                st.violation('probe-fault:names-differ:%s' % tag, dict(d, cat=c, reported=got[c], advertised=lists[c]))
+                break
+    st.sample({'probe_fault': [chunk[0][0], chunk[0][1][0], list(chunk[0][1][1]), list(chunk[0][2]), chunk[0][3]]}, cap=8)
+
+
 def _jsonable(case):
     return json.loads(json.dumps(case, default=lambda o: o.decode('latin1') if isinstance(o, bytes) else repr(o)))
 
@@ -354,6 +397,8 @@ def run(tier, seed):
     zs = zoo.names(tier)
     par.pmap(work_zoo, zs, stats=st, chunk=6)
     par.pmap(work_zoo_T, zs[::3], stats=st, chunk=6)
+    pf = probe_fault_tasks()
+    par.pmap(work_probe_faults, pf, stats=st, chunk=8)
     validated = H.validate_traces(validation_cases(cs, seed, 40 if tier == 'quick' else 200), st)
     return evidence.finish(
         PID, tier, seed, st, t0,
@@ -361,7 +406,8 @@ def run(tier, seed):
              '"gss-"): all lists of length 0..%d in one category at a time, full cross of all categories at length <=1, asymmetric c2s/s2c, '
              'compression lists x banners; each banner cut into two segments at every offset and delivered byte by byte; x role {server, client} x rendering {plain, batch, verbose, json%s}; every SSH-1 cipher mask and '
              'authentication mask; the same oracle over the %d cooperative peers of props/zoo.py (drawn from every other check) in plain, verbose and JSON; '
-             'each distinct case is non-trivial' % (2 if tier == 'quick' else 3, '' if tier == 'quick' else ', colour', len(zs)),
+             '%d (probe connection 1..4, connection-level fault, rendering, single/-T) combinations: trouble on a later connection of the audit leaves the reported lists intact; '
+             'each distinct case is non-trivial' % (2 if tier == 'quick' else 3, '' if tier == 'quick' else ', colour', len(zs), len(pf)),
         assumptions=['expected names = independent decode of the bytes the scripted peer sent (mc/wire.py)',
                      'verbose rendering compared after collapsing adjacent duplicates', 'empty names are not names'],
         exhaustive=True, traces_validated=validated, extra={'cases': len(cs)})
